@@ -55,7 +55,7 @@ fn transport(kind: &str, data: &[u8], n: usize) -> String {
         ],
     };
     match kind {
-        "unixpath" | "unixmode" | "unixstale" | "unixmodestale" | "abstract" | "tcp" => {
+        "unixpath" | "unixmode" | "unixstale" | "unixmodestale" | "abstract" | "tcp" | "tcp6" | "tcphost" => {
             if kind.ends_with("stale") {
                 // a socket file left behind by an earlier instance that did not clean up (std's listener does not unlink)
                 let p = format!("{}/t-{}-{}.sock", tmpdir(), std::process::id(), n);
@@ -66,6 +66,19 @@ fn transport(kind: &str, data: &[u8], n: usize) -> String {
                 "unixpath" | "unixstale" => format!("unix:{}/t-{}-{}.sock", tmpdir(), std::process::id(), n),
                 "unixmode" | "unixmodestale" => format!("unix:{}/t-{}-{}.sock;mode=0600", tmpdir(), std::process::id(), n),
                 "abstract" => format!("unix:@vh-addr-{}-{}", std::process::id(), n),
+                // a bracketed IPv6 literal and a host name are tcp addresses like a dotted quad
+                "tcp6" => {
+                    let l = std::net::TcpListener::bind("[::1]:0").unwrap();
+                    let p = l.local_addr().unwrap().port();
+                    drop(l);
+                    format!("tcp:[::1]:{}", p)
+                }
+                "tcphost" => {
+                    let l = std::net::TcpListener::bind("127.0.0.1:0").unwrap();
+                    let p = l.local_addr().unwrap().port();
+                    drop(l);
+                    format!("tcp:localhost:{}", p)
+                }
                 _ => {
                     let l = std::net::TcpListener::bind("127.0.0.1:0").unwrap();
                     let p = l.local_addr().unwrap().port();
@@ -116,14 +129,29 @@ fn transport(kind: &str, data: &[u8], n: usize) -> String {
                             Err(e) => format!("err:{}", kind_of(&e)),
                         }
                     };
+                    // a third connection, opened while the activating one is alive and used after that one is gone: the
+                    // service serves its connections independently of the connection object that started it
+                    let c3 = {
+                        let a = c.read().unwrap().address();
+                        varlink::Connection::with_address(&a)
+                    };
                     let out = exchange(c.clone(), data);
                     let rep = std::fs::read_to_string(&report).unwrap_or_default();
                     let _ = std::fs::remove_file(&report);
-                    if let Some(ch) = c.write().unwrap().child.as_mut() {
-                        let _ = ch.kill();
-                        let _ = ch.wait();
+                    drop(c);
+                    std::thread::sleep(Duration::from_millis(30));
+                    let after = match c3 {
+                        Ok(c3) => hex(&exchange(c3, b"{\"method\":\"org.varlink.service.GetInfo\"}\0")),
+                        Err(e) => format!("err:{}", kind_of(&e)),
+                    };
+                    unsafe {
+                        if pid > 0 {
+                            libc::kill(pid as i32, libc::SIGKILL);
+                            let mut st = 0;
+                            libc::waitpid(pid as i32, &mut st, 0);
+                        }
                     }
-                    format!("out={} childpid={} report={} again={}", hex(&out), pid, hex(rep.trim().as_bytes()), again)
+                    format!("out={} childpid={} report={} again={} afterdrop={}", hex(&out), pid, hex(rep.trim().as_bytes()), again, after)
                 }
                 Err(e) => format!("err:{}", kind_of(&e)),
             }
